@@ -123,7 +123,7 @@ class SolvingWrapper(ScriptedWrapper):
         self.last_residual = residual.copy()
         duals = [residual]
         for k, item in enumerate(self._list_of_constraints_sent_to_solver):
-            if isinstance(item, Constraint): duals.append(float(1000 + k))
+            if isinstance(item, Constraint): duals.append(-float(1000 + k) if k % 3 == 1 else float(1000 + k))       # every third multiplier is negative
             else: duals.append(np.eye(item.shape[0]) * (2000 + k))
         return duals, residual
 
@@ -627,7 +627,12 @@ class Prog:
             r = self.rnd.random()
             if r < .5:
                 x = self.rnd.choice(self.P) if self.P and self.rnd.random() < .7 else self.point()
-                g, v = self.newp(), self.newe(); self.emit("fn.oracle %s %s %s %s" % (f, x, g, v))
+                g, v = self.newp(), self.newe()
+                if getattr(self, "allow_addpoint", False) and det_choice(len(self.lines), f + x + g, 6) == 0:
+                    # the documented low-level form: the caller records a sample of its own (its own gradient and value objects), also
+                    # at a point the function already has a sample for — every recorded sample takes part in the class conditions
+                    self.emit("pt.leaf %s" % g); self.emit("ex.leaf %s" % v); self.emit("fn.addpoint %s %s %s %s" % (f, x, g, v))
+                else: self.emit("fn.oracle %s %s %s %s" % (f, x, g, v))
             elif r < .65:
                 x = self.rnd.choice(self.P) if self.P else self.point(); g = self.newp()
                 self.emit("%s %s %s %s" % ("fn.subgradient" if det_choice(len(self.lines), f + x + g, 3) == 0 else "fn.gradient", f, x, g))
@@ -641,7 +646,7 @@ class Prog:
 
 
 def gen_class(seed):
-    rnd = random.Random(seed); p = Prog(rnd)
+    rnd = random.Random(seed); p = Prog(rnd); p.allow_addpoint = True
     cls = rnd.choice(list(CLASSES) + ["BlockSmoothConvexFunction"])
     focus = os.environ.get("PEPV_CLS_FOCUS")
     if focus and rnd.random() < .5: cls = rnd.choice(focus.split(","))
@@ -677,7 +682,7 @@ def gen_class(seed):
 
 
 def gen_collect(seed):
-    rnd = random.Random(seed); p = Prog(rnd)
+    rnd = random.Random(seed); p = Prog(rnd); p.allow_addpoint = True
     big = big_mode(seed); p.scale = scale_mode(seed)
     for _ in range(2): p.point()
     if big:
@@ -832,7 +837,7 @@ def gen_steps(seed):
     return p.lines
 
 def gen_resolve(seed):
-    rnd = random.Random(seed); p = Prog(rnd)
+    rnd = random.Random(seed); p = Prog(rnd); p.allow_addpoint = True
     big = big_mode(seed)
     for _ in range(2): p.point()
     if big:
